@@ -1,3 +1,7 @@
+class PrintUsingError(Exception):
+    """The values do not fit the format string."""
+
+
 class PrintUsingFormatter:
     """Formats text according to QBASIC's PRINT USING statement rules.
 
@@ -40,7 +44,8 @@ class PrintUsingFormatter:
                 self.fmt_parts.append(('str', fmt[i]))
                 i += 1
             elif fmt[i] == '_':
-                non_formatting += fmt[i+1]
+                # an underscore at the very end stands for itself
+                non_formatting += fmt[i+1] if i + 1 < len(fmt) else '_'
                 i += 2
             else:
                 non_formatting += fmt[i]
@@ -98,24 +103,32 @@ class PrintUsingFormatter:
         output = ''
         i = 0
         for (fmt_type, fmt, options) in fmt_parts:
-            if fmt_type != 'non' and i >= len(fmt_parts):
-                raise RuntimeError('Not enough values.')
+            if fmt_type != 'non' and i >= len(values):
+                raise PrintUsingError('Not enough values.')
 
             if fmt_type == 'non':
                 output += fmt
             elif fmt_type == 'str':
                 if not isinstance(values[i], str):
-                    raise RuntimeError('Type mismatch.')
-                output += values[i][0] if fmt == '!' else values[i]
+                    raise PrintUsingError('Type mismatch.')
+                if fmt == '!':
+                    if not values[i]:
+                        raise PrintUsingError(
+                            'Empty string for a "!" field.')
+                    output += values[i][0]
+                else:
+                    output += values[i]
                 i += 1
             elif fmt_type == 'num':
+                if isinstance(values[i], str):
+                    raise PrintUsingError('Type mismatch.')
                 output += self.format_number(fmt, values[i], options)
                 i += 1
             else:
                 assert False
 
         if i < len(values):
-            raise RuntimeError('Too many values.')
+            raise PrintUsingError('Too many values.')
 
         return output
 
